@@ -1,0 +1,8 @@
+//! Verification hooks for the external runtime-verification harness.
+//!
+//! Only compiled with the `verif-hooks` cargo feature (off by default).  Everything in
+//! here is a thin wrapper that exposes crate-private items unchanged; nothing in this
+//! module is used by the crate itself.
+#![allow(missing_docs, unreachable_pub, dead_code, missing_debug_implementations)]
+
+pub use iroh_base::verif_hooks::{event, events_enabled, pause};
